@@ -123,6 +123,12 @@ func init() {
 						}
 						tag += "+decoy"
 					}
+					if which == 2 && i%2 == 0 {
+						// an OpenDocument text is what its mimetype member says, also when a container file of
+						// another packaging convention lies beside it, before or after the mimetype in the archive
+						d.zip = append(d.zip, zipMember{Name: "META-INF/container.xml", Data: []byte(`<?xml version="1.0"?><container/>`)})
+						tag += "+container"
+					}
 					d.zip = shuffleMembers(rng, d.zip, false)
 				}
 				data := c20Bytes(d)
